@@ -13,9 +13,16 @@ DV = 1 << 20
 
 def _call(ra, op, via, keepdims=False):
     """the entry points named in the property's observe_at"""
-    uf = {"sum": np.add, "prod": np.multiply, "any": np.logical_or, "all": np.logical_and, "max": np.maximum, "min": np.minimum,
+    uf = {"argmax": None, "argmin": None, "sum": np.add, "prod": np.multiply, "any": np.logical_or, "all": np.logical_and, "max": np.maximum, "min": np.minimum,
           "bor": np.bitwise_or, "band": np.bitwise_and, "bxor": np.bitwise_xor}[op]
     kw = {"keepdims": True} if keepdims else {}
+    if op in ("argmax", "argmin"):
+        if via == "method":
+            return getattr(ra, op)(axis=-1, **kw)
+        if via == "np":
+            return getattr(np, op)(ra, axis=-1)
+        if via == "none":
+            return getattr(ra, op)()
     if via == "method":
         return getattr(ra, op)(axis=-1, **kw)
     if via == "method1":
@@ -35,14 +42,18 @@ def _dtype(op):
     return {"any": "bool", "all": "bool", "bor": "uint8", "bxor": "uint8", "band": "int8"}.get(op, "int64")
 
 
+def _dtype_p(p):
+    return p.get("dtype") or _dtype(p["op"])
+
+
 def gen(E, p):
     import z3
     op = p["op"]
-    minlen = 1 if op in ("max", "min") else 0
+    minlen = 1 if op in ("max", "min", "argmax", "argmin") else 0
     R = E.concretize(E.int("R", p.get("Rmin", 0), p["R"]))
     lens = [E.int(f"l{r}", minlen, p["L"]) for r in range(R)]
     S = E.concretize(z3.Sum(lens) if lens else z3.IntVal(0))
-    dt = _dtype(op)
+    dt = _dtype_p(p)
     if dt == "bool":
         data = [E.bool(f"d{q}") for q in range(S)]
     elif dt in ("uint8", "int8"):
@@ -95,10 +106,41 @@ def sym(E, p, kf):
     via = p["via"]
     got = outcome(lambda: _call(ra, p["op"], via, p.get("keepdims", False)))
     case = dict(lens=lens, data=data, op=p["op"], via=via, keepdims=p.get("keepdims", False), dtype=dt)
+    import z3 as _z
     if got["k"] == "raise":
         return dict(goal=False, got=got, case=case)
-    exp = z3_fold(p["op"], lens, data, dt)
     conds = []
+    if p["op"] in ("argmax", "argmin"):
+        unsigned = dt.startswith("uint")
+
+        def better(a, b):      # a strictly better than b
+            if z3.is_bv(a):
+                return (z3.UGT(a, b) if unsigned else a > b) if p["op"] == "argmax" else (z3.ULT(a, b) if unsigned else a < b)
+            return a > b if p["op"] == "argmax" else a < b
+        starts, _ = specs.prefix_starts(lens)
+        if via == "none":
+            g = got["val"] if got["k"] == "scalar" else None
+            if g is None:
+                return dict(goal=False, got=got, case=case)
+            g = specs.I(g)
+            conds += [g >= 0, g < S]
+            for q in range(S):
+                conds.append(z3.Implies(g == q, z3.And(*[z3.Not(better(data[t], data[q])) for t in range(S)] + [better(data[q], data[t]) for t in range(q)])))
+            return dict(goal=specs.conj(conds), got=got, case=case)
+        if got["k"] != "array" or got["shape"] != ([R, 1] if p.get("keepdims") else [R]):
+            return dict(goal=False, got=got, case=case)
+        for r in range(R):
+            g = specs.I(got["flat"][r])
+            conds += [g >= 0, g < lens[r]]
+            for q in range(S):
+                here = z3.And(starts[r] <= q, q < starts[r] + lens[r], g == q - starts[r])
+                best = [z3.Implies(z3.And(starts[r] <= t, t < starts[r] + lens[r]), z3.Not(better(data[t], data[q]))) for t in range(S)]
+                first = [z3.Implies(z3.And(starts[r] <= t, t < q), better(data[q], data[t])) for t in range(q)]
+                conds.append(z3.Implies(here, z3.And(*(best + first))))
+        after = common.cells(ra.ravel())
+        conds += [specs.eqv(a, b) for a, b in zip(after, data)]
+        return dict(goal=specs.conj(conds), got=got, case=case)
+    exp = z3_fold(p["op"], lens, data, dt)
     if via in ("none", "npnone"):
         if got["k"] != "scalar":
             return dict(goal=False, got=got, case=case)
@@ -146,6 +188,10 @@ def _pyfold(op, row, dt):
         return functools.reduce(lambda a, b: a ^ b, row, 0)
     if op == "band":
         return functools.reduce(lambda a, b: a & b, row, -1)
+    if op == "argmax":
+        return row.index(max(row))
+    if op == "argmin":
+        return row.index(min(row))
 
 
 def _res_dtype(op, dt):
@@ -162,6 +208,8 @@ def conc(case):
     data = case["data"]
     if dt == "int8":
         data = [d - 256 if d >= 128 else d for d in data]
+    if dt == "int64":
+        data = [d - (1 << 64) if d >= 1 << 63 else d for d in data]
     rows = common.rows_of(data, case["lens"])
     ra = mk_ragged(RaggedArray, np.array(data, dtype=dt) if data else [], case["lens"], dt)
     got = outcome(lambda: _call(ra, case["op"], case["via"], case["keepdims"]))
@@ -190,6 +238,13 @@ def jobs(tier, seed):
         out.append(dict(base, op=op, via="none", Rmin=1 if op in ("prod",) else 0))
     out.append(dict(base, op="sum", via="method1"))
     out.append(dict(base, op="sum", via="npnone"))
+    for op in ("argmax", "argmin"):
+        small = dict(R=2, L=3) if q else dict(R=3, L=3)
+        for dt in ("int64", "uint8", "int8"):
+            out.append(dict(base, op=op, via="method", Rmin=1, dtype=dt, **small))
+        out.append(dict(base, op=op, via="np", Rmin=1, **(dict(R=2, L=2) if q else small)))
+        out.append(dict(base, op=op, via="none", Rmin=1, R=2, L=3))
+        out.append(dict(base, op=op, via="method", keepdims=True, Rmin=1, **(dict(R=2, L=2) if q else small)))
     for op in ("max", "min"):
         for via in ("method", "reduce", "np"):
             out.append(dict(base, op=op, via=via, Rmin=1))
